@@ -230,12 +230,22 @@ class Outcome:
         self.t0 = time.time()
         self.failures: list[dict] = []  # {'key':..., 'sig':..., 'detail':...}
         self.known = [k for k in load_known() if k["property"] == pid and k.get("status") == "known"]
+        # findings with many failing inputs keep their (key -> signatures) table in a committed side file
+        self.tables = {}
+        for k in self.known:
+            if k.get("keys_file"):
+                f = ROOT / k["keys_file"]
+                self.tables[k["id"]] = json.loads(f.read_text())["keys"] if f.exists() else {}
 
     def fail(self, key: str, sig: str, detail: dict) -> None:
         self.failures.append({"key": key, "sig": sig, "detail": detail})
 
     def _match(self, f: dict) -> dict | None:
         for k in self.known:
+            if k["id"] in self.tables:
+                if f["sig"] in self.tables[k["id"]].get(f["key"], ()):
+                    return k
+                continue
             if k.get("key") == f["key"] and k.get("sig") in (None, f["sig"]):
                 return k
             if k.get("key_prefix") and f["key"].startswith(k["key_prefix"]) and k.get("sig") in (None, f["sig"]):
